@@ -44,12 +44,15 @@ CHECKS = {
              dict(out="abi-driver", env="VERIF_ABI_DRIVER", cmd=["gcc", "-O1", "-w", "-o", "{out}", "{verif}/cdriver/driver.c", "-ldl"], cwd="{verif}")],
         rule="(a) every generated C01 history / C02 view-operation case executed in lock-step on a Go-backed and a C-backed root (C memory = anonymous mapping outside the Go heap with canaries, in 2/3 of the cases flush against a PROT_NONE page at its end or start): all observations (element reads, Unroll, Shape, Contiguous, errors, whole storage after each step) must be identical and no byte outside the buffer may change. "
              "(b) RunSingleModel: generated (any catalogued model, 1..6 cells, parameter sets and input blocks equal to / fewer than / coprime with the cell count, T<=30, output buffer exact or larger, initStates true/false, states NULL or not) called in-process with C argument types on guarded buffers, and through the real C ABI (libopenwater.so built with -buildmode=c-shared, loaded by a C driver that places every buffer flush against PROT_NONE pages at its end or start, with canaries): outputs and final states (incl. library-initialised states copied back) bit-identical to the Go API run, inputs and parameters unchanged, no access outside the buffers. "
-             "Non-trivial = (a) as C01/C02; (b) >= 2 cells with fewer parameter or input sets than cells, or initStates with copy-back; distinct = distinct case",
+             "(c) 2-8 goroutines read one view object (any element type, Go- or C-backed, any generated view) through every read accessor (Get, Get1/2/3, Unroll, Maximum, Minimum, Shape, Len, Contiguous, Slice) at once, as the per-cell goroutines of every generated Run do with the shared parameter and input arrays; every value must equal the extensional model, and the stage runs under the race detector (an accessor that writes to the array object is reported whatever the timing). "
+             "Non-trivial = (a) as C01/C02; (c) a C-backed view of >= 2 elements; (b) >= 2 cells with fewer parameter or input sets than cells, or initStates with copy-back; distinct = distinct case",
         assumptions=["C int/uint are 32-bit, Go's 64-bit: values are generated in the common range", "writes through slices returned by Unroll are excluded from the lock-step (C views unroll to copies by design)"],
-        quick=dict(stages=[st(2500, timeout=600),
+        quick=dict(stages=[st(2500, run="TestLockStepGoVsC", timeout=600),
+                           st(200, race=True, run="TestConcurrentReaders", timeout=600),
                            st(400, pkg="libow", overlay=dict(map_main={"libopenwater": "libow"}), run="TestEntryPointInProcess", timeout=600),
                            st(150, pkg="libow", overlay=dict(map_main={"libopenwater": "libow"}), run="TestEntryPointThroughCABI", timeout=600)]),
-        thorough=dict(stages=[st(0, fuzz="FuzzLockStepGoVsC", fuzztime="60s", timeout=600), st(150000, shards=10, timeout=3000),
+        thorough=dict(stages=[st(0, fuzz="FuzzLockStepGoVsC", fuzztime="60s", timeout=600), st(150000, shards=10, run="TestLockStepGoVsC", timeout=3000),
+                              st(6000, shards=3, race=True, run="TestConcurrentReaders", timeout=3000),
                               st(40000, shards=3, pkg="libow", overlay=dict(map_main={"libopenwater": "libow"}), run="TestEntryPointInProcess", timeout=3000),
                               st(30000, shards=3, pkg="libow", overlay=dict(map_main={"libopenwater": "libow"}), run="TestEntryPointThroughCABI", timeout=3000)]),
     ),
@@ -73,12 +76,12 @@ CHECKS = {
         thorough=dict(stages=[st(25000, shards=16, timeout=3500)]),
     ),
     "C14": dict(
-        require={'causality-interior-cut-stateful': 0.05, 'history>=3-runs-2-models': 0.1},
+        require={'causality-interior-cut-stateful': 0.05, 'history>=3-runs-2-models': 0.1, "states-from-the-object's-InitialiseStates": 0.1},
         pkg="c14", level="exploration",
-        rule="rapid-generated (any catalogued model, parameters/inputs/states in domain; a history of 0-4 other runs on the same object with other parameters or on other models; a cut t and a replacement or truncation of the inputs after t); oracle (metamorphic): bit-identical outputs and final states on repeat / fresh object / after the history; outputs[0..t] bit-identical under any change after t; inputs and parameters unchanged. "
+        rule="rapid-generated (any catalogued model, parameters/inputs/states in domain; a history of 0-4 other runs on the same object with other parameters or on other models; in one case of three every run starts from the states the model object itself hands out (InitialiseStates, as ow-single and the C entry point do) instead of a state row built by the harness; a cut t and a replacement or truncation of the inputs after t); oracle (metamorphic): bit-identical outputs and final states on repeat / fresh object / after the history; outputs[0..t] bit-identical under any change after t; inputs and parameters unchanged. "
              "Non-trivial = history involving >= 2 model types, or an interior cut on a stateful model; distinct = distinct case",
         assumptions=[],
-        quick=dict(stages=[st(2500, timeout=900)]),
+        quick=dict(stages=[st(4000, shards=8, timeout=900)]),
         thorough=dict(stages=[st(20000, shards=16, timeout=3500)]),
     ),
     "C10": dict(
@@ -162,7 +165,7 @@ CHECKS = {
         thorough=dict(stages=[st(0, fuzz="FuzzClimateOrdering", fuzztime="60s", timeout=600), st(250000, shards=16, timeout=3500)]),
     ),
     "C17": dict(
-        require={'missing-parameter-and-input': 0.005, 'nested-encoding': 0.05},
+        require={'missing-parameter-and-input': 0.005, 'nested-encoding': 0.05, 'default-after-an-earlier-request-named-the-parameter': 0.02},
         pkg="c17", level="exploration",
         pre=[dict(kind="harness_main", repo_dir="cmd/ow-single", pkg="owsingle", out="ow-single", env="VERIF_OWSINGLE")],
         rule="(a) rapid-generated structured requests (any non-dimensioned catalogued model, any subset/superset/order of parameters and inputs, equal series lengths, values in domain): in-process with all parameters present and both encodings (split / nested), and through the real ow-single binary (child process, stdin/stdout) with subsets so that defaults are used; oracle: decoded outputs/states bit-equal (after the NaN/+Inf/-Inf string mapping) to a direct one-cell run with defaults / zeros, every missing parameter and input named by a log entry and nothing present reported missing. "
@@ -170,39 +173,39 @@ CHECKS = {
              "(c) JsonSafeArray on generated float64 views of rank 1..4 (sliced, stepped) with NaN/+-Inf sprinkled, every shiftDim, against nesting computed on the extensional model. Non-trivial = (a) >=1 missing parameter and >=1 missing input (or >1 input series in-process), (b) request that is valid JSON but not runnable, or runnable hostile request, (c) rank >= 3 or stepped view; distinct = distinct case",
         assumptions=["the request is the first JSON value of the input stream (bytes after it are ignored by the streaming decoder; not flagged)",
                      "supplied States are ignored by the runner (documented TODO in the code): the direct run uses the model's own initial states"],
-        quick=dict(stages=[st(1500, run="TestJsonSafeArray|TestRunnerInProcess", timeout=900), st(800, run="TestRunnerChildProcess", timeout=900)]),
-        thorough=dict(stages=[st(0, fuzz="FuzzJsonSafeArray", fuzztime="60s", timeout=600), st(80000, shards=8, run="TestJsonSafeArray|TestRunnerInProcess", timeout=3500), st(30000, shards=8, run="TestRunnerChildProcess", timeout=3500)]),
+        quick=dict(stages=[st(1500, run="TestJsonSafeArray|TestRunnerInProcess", timeout=900), st(800, run="TestRunnerChildProcess|TestRunnerHistoryOneProcess", timeout=900)]),
+        thorough=dict(stages=[st(0, fuzz="FuzzJsonSafeArray", fuzztime="60s", timeout=600), st(80000, shards=8, run="TestJsonSafeArray|TestRunnerInProcess", timeout=3500), st(30000, shards=8, run="TestRunnerChildProcess|TestRunnerHistoryOneProcess", timeout=3500)]),
     ),
     "C09": dict(
         pkg="c09", level="translation_validation",
         rule="exhaustive over the finite set: every generated file of the working tree (6 genny outputs + one wrapper per OW-SPEC block found by an independent YAML scan of models/**) is deleted in a scratch copy, regenerated with genny (built from the module cache) and ow-specgen (built from the tree) and compared byte-for-byte; generated files without a directive/spec and specs without a file are failures; "
              "every spec block is compared with sim.Catalog and Description() (parameter names, defaults, ranges, dimensions; inputs, states, outputs in spec order) through a YAML reading that does not use the generator's code; "
-             "plus rapid-drawn subsets and orders of spec files handed to one ow-specgen invocation (and of genny directives): the output must not depend on them. Every file / spec block counts as non-trivial; distinct = file path / model name / invocation",
+             "plus the invocations of ow-specgen a developer types, enumerated (the whole tree and every directory in glob order and reversed, every spec file followed by the next one) and rapid-drawn subsets and orders of 1..all spec files handed to one invocation (and of genny directives): the output must not depend on them. Every file / spec block counts as non-trivial; distinct = file path / model name / invocation",
         assumptions=["genny is built from the module cache at the version go.sum pins", "the comparison is of files, not of behaviour: it shows the checked-in code is the generators' output, so the template-level results of C04/C05 apply to all 41 wrappers and 8 element types"],
         quick=dict(stages=[st(8, timeout=900)]),
         thorough=dict(stages=[st(120, shards=8, timeout=3000)]),
     ),
     "C08": dict(
-        require={'load:step>1': 0.03, 'non-contiguous-source-view': 0.05, 'writeSlice': 0.03, '__nontrivial__': 0.2},
+        require={'load:step>1': 0.03, 'non-contiguous-source-view': 0.05, 'load:reused-selection-object': 0.01, 'writeSlice': 0.03, '__nontrivial__': 0.2},
         pkg="c08", level="exploration",
         overlay=dict(inject={"io/zz_verif_export.go": "harness/overlays/io_export.go"}),
-        rule="rapid-generated histories of 1-25 operations over two files in the HDF5 stand-in: Create (new / same shape / different shape / with compression), Write of a generated source view (all 8 element types, Go- and C-backed, any layout), WriteSlice of a generated sub-array at a location, Load with Slice nil or per-dimension nil | [start, stop, step] (stop possibly beyond the extent, step 1..4), Exists / Shape / GetDatasets / GetGroups; "
+        rule="rapid-generated histories of 1-25 operations over two files in the HDF5 stand-in: Create (new / same shape / different shape / with compression), Write of a generated source view (all 8 element types, Go- and C-backed, any layout), WriteSlice of a generated sub-array at a location, Load with Slice nil or per-dimension nil | [start, stop, step] (stop possibly beyond the extent, step 1..4; one load in three hands over the very selection object an earlier load of the history used, as ow-sim does), Exists / Shape / GetDatasets / GetGroups; "
              "model = map path -> (type, shape, values); after every operation the raw bytes of every dataset (decoded independently) and a whole-dataset Load equal the model, Load(sel) has exactly the shape and elements of the in-memory slice start:min(stop,n):step, re-create leaves values unchanged and a different shape is refused, listings equal the model; lock probe at every stand-in call (TryLock must fail; for mutating calls TryRLock must fail); "
              "exhaustive enumeration of sliceSize / makeHyperslab over n<=12, all start, stop<=n+3, step<=5; concurrent workers each owning a dataset of one shared file (run under the race detector in the thorough tier); a self-check of the stand-in's selection against nested loops. "
              "Non-trivial = a load with step>1 or clipped stop, or a write whose source view is non-contiguous, or a selection triple with step>1 / clipped stop; distinct = distinct case",
         assumptions=["libhdf5 is not installed: a pure-Go stand-in (/verif/fakehdf5) with the binding's API, type table and raw-transfer rule is the trusted base; agreement with the real libhdf5 ABI (cgo type mapping, chunking/deflate, real error codes) cannot be executed here",
                      "empty selections and compress=true (refused by libhdf5 on a contiguous layout) are a separate class that must only leave everything else intact",
                      "Create ignoring its fillValue and WriteSlice swallowing the library's error are not flagged"],
-        quick=dict(stages=[st(2000, run="TestRoundTripHistories|TestSelectionHelpersExhaustive|TestStandInSelfCheck", timeout=900), st(300, run="TestConcurrentCallers", timeout=900)]),
+        quick=dict(stages=[st(2000, run="TestRoundTripHistories|TestSelectionHelpersExhaustive|TestStandInSelfCheck", timeout=900), st(300, run="TestConcurrentCallers", timeout=900), st(150, race=True, run="TestConcurrentCallers", timeout=900)]),
         thorough=dict(stages=[st(0, fuzz="FuzzRoundTripHistories", fuzztime="60s", timeout=600), st(70000, shards=12, run="TestRoundTripHistories|TestSelectionHelpersExhaustive|TestStandInSelfCheck", timeout=3500), st(8000, shards=4, race=True, run="TestConcurrentCallers", timeout=3500)]),
     ),
     "C07": dict(
-        require={'several-links-into-one-input': 0.03, 'empty-batch': 0.1, '__nontrivial__': 0.15},
+        require={'several-links-into-one-input': 0.03, 'empty-batch': 0.1, 'table-parameter-model:generation-without-the-longest-table': 0.03, '__nontrivial__': 0.15},
         pkg="owsim", level="exploration",
         overlay=dict(map_main={"cmd/ow-sim": "owsim"}),
-        rule="rapid-generated layered model graphs over the HDF5 stand-in: 1-4 model types from a pool of 20 models whose kernels accept any non-negative input, 1-5 generations, 0-4 nodes per (model, generation) including empty batches and models absent from generation 0, links only forward in generation order (several links into one input, fan-out), models with and without a stored inputs dataset, T=1..20, flags -overwrite (with a stale output file), -outputs-for/-no-outputs-for/-inputs-for/-no-inputs-for subsets, separate parameter / initial-state / time-series / final-state files, no output file, and delays injected at the stand-in's read / write calls; the real run_simulation is called in-process (sources mapped by -overlay); "
+        rule="rapid-generated layered model graphs over the HDF5 stand-in: 1-4 model types from a pool of 20 models whose kernels accept any non-negative input plus the two table-parameter models (RatingCurvePartition, Storage: tables of different lengths per node, padded in the parameter dataset; always with stored inputs and never a link destination because their kernels only accept inputs inside their tables), 1-5 generations, 0-4 nodes per (model, generation) including empty batches and models absent from generation 0, links only forward in generation order (several links into one input, fan-out), models with and without a stored inputs dataset, T=1..20, flags -overwrite (with a stale output file), -outputs-for/-no-outputs-for/-inputs-for/-no-inputs-for subsets, separate parameter / initial-state / time-series / final-state files, no output file, and delays injected at the stand-in's read / write calls; the real run_simulation is called in-process (sources mapped by -overlay); "
              "oracle: an independent sequential interpreter (generations in order; node input = stored input or zeros + sum of linked source outputs; each node run alone through the catalogue) compared bit-for-bit with /MODELS/<m>/{outputs,states,inputs} row by row, datasets present exactly when selected, and from the stand-in's call log every (model, generation, dataset) block written exactly once at its batch offset before run_simulation returns. "
-             "Non-trivial = >= 2 generations and a link whose destination has a stored input or another incoming link; distinct = distinct graph",
+             "Non-trivial = >= 2 generations and a link whose destination has a stored input or another incoming link, or a table-parameter model with a generation that does not hold its longest table; distinct = distinct graph",
         assumptions=["HDF5 stand-in (see C08) is the trusted base", "not covered: -outputs model=file (re-executes the binary as a -writer sub-process) and the protobuf writer", "the /LINKS dataset always exists (possibly with zero rows)"],
         quick=dict(stages=[st(25, shards=8, run="TestSimulationEqualsSequentialReference", timeout=900, env={"VERIF_PROPERTY": "C07"})]),
         thorough=dict(stages=[st(1000, shards=16, run="TestSimulationEqualsSequentialReference", timeout=3500, env={"VERIF_PROPERTY": "C07"})]),
